@@ -99,8 +99,18 @@ func dedupLoop(configArgs map[string]string, w *fsnotify.Watcher, completedChann
 		defer regenerateMutex.Unlock()
 
 		dirsToWatch := generateInWatchMode(configArgs)
-		if dirsToWatch != nil && len(dirsToWatch) > len(w.WatchList()) {
+		if dirsToWatch != nil {
+			// Watch the directory of every referenced package that is not being watched yet.
+			// (The list does not include the package in the current directory, so comparing
+			// its length with the length of the watch list would miss a single import.)
+			watched := make(map[string]bool)
+			for _, dir := range w.WatchList() {
+				watched[dir] = true
+			}
 			for _, dir := range dirsToWatch {
+				if watched[dir] {
+					continue
+				}
 				if err := w.Add(dir); err != nil {
 					completedChannel <- err
 					return
